@@ -13,11 +13,13 @@ LEVEL = "other"
 EXPLANATION = (
     "Sibling cross-check by static analysis of pyairtouch/api.py (Protocols) and the two implementations: R1 every Protocol member is defined by "
     "both generations with the same nature (property / def / async def), parameter names, kinds (keyword-only!) and defaults; R2 table parity: "
-    "tables paired through the getter/setter that uses them agree on every member both generations define (compared by member name); R3 "
-    "behaviour skeleton parity per method pair: for every effect (socket send with its retry policy, private sender call, subscriber "
-    "notification, ValueError, store to self) the set of dominating branch conditions, and the set of self.* attribute reads, agree after the "
-    "group->zone renaming; R4 the differences that remain are exactly the frozen whitelist taken from the property (resolution, away/sleep, "
-    "intelligent auto, bypass, per-mode limits, AT4 turbo flag / control-method selection / group poll / ability fallbacks, AT5 zero-zone echo)."
+    "tables paired through the getter/setter that uses them agree on every member both generations define (compared by member name); R3 behaviour"
+    " skeleton parity per method pair: for every effect (socket send with its retry policy, private sender call, subscriber notification, "
+    "ValueError, store to self) the set of dominating branch conditions, and the set of self.* attribute reads, agree after the group->zone "
+    "renaming; R5 the decisive per-generation rules of C02/C09/C10/C11/C12 hold for both generations (re-used, so a one-sided regression is "
+    "reported here as a divergence); R4 the differences that remain are exactly the frozen whitelist taken from the property (resolution, "
+    "away/sleep, intelligent auto, bypass, per-mode limits, AT4 turbo flag / control-method selection / group poll / ability fallbacks, AT5 zero-"
+    "zone echo)."
 )
 ASSUMPTIONS = ["the two generations are meant to be line-for-line siblings outside the documented differences (true of the pinned tree)"]
 FLOORS = {"C19.R1": 60, "C19.R2": 10, "C19.R3": 40, "C19.R5": 1}
